@@ -325,12 +325,49 @@ def set_seed_case(col, auto_update):
     col.add(None if bad is None else {"sig": "native::coherence::set_seed", "what": f"auto_update={auto_update}: {bad}", "input": {"auto_update": auto_update}})
 
 
+def foreign_caching_node_case(col, how):
+    """caching nodes that are NEITHER a Calc NOR a Dist - the legacy probability-integral-transform node (lsl.PIT) and a user-defined Node subclass - take
+    part in the protocol like every other caching node: re-evaluated by the automatic / full / targeted update, and what is computed from them is current"""
+    import jax.numpy as jnp
+    import tensorflow_probability.substrates.jax.distributions as tfd_
+
+    class Doubler(lsl.Node):
+        def update(self):
+            self._value = 2.0 * self.all_input_nodes()[0].value
+            self._outdated = False
+            return self
+
+    mu = lsl.Var(np.float32(0.5), name="mu")
+    y = lsl.Var(jnp.asarray([0.1, -0.4, 1.2], jnp.float32), lsl.Dist(tfd_.Normal, loc=mu, scale=1.0), name="y")
+    u = lsl.PIT(y, name="u")
+    d = Doubler(mu, _name="dbl")
+    z = lsl.Var(lsl.Calc(lambda u_, d_: jnp.sum(u_) + d_, u, d), name="z")
+    m = lsl.GraphBuilder().add(z).build_model()
+    if how != "auto":
+        m.auto_update = False
+    m.vars["mu"].value = np.float32(-1.0)
+    if how == "full":
+        m.update()
+    elif how == "targeted":
+        m.update("z_value")
+    want_u = np.asarray(tfd_.Normal(-1.0, 1.0).cdf(jnp.asarray([0.1, -0.4, 1.2], jnp.float32)))
+    want_z = float(want_u.sum() - 2.0)
+    bad = []
+    pit = [n for n in m.nodes.values() if type(n).__name__ == "PITCalc"][0]
+    for nm, nd, w in (("PIT node", pit, want_u), ("user-defined node", m.nodes["dbl"], -2.0), ("z", m.nodes["z_value"], want_z)):
+        if nd.outdated:
+            bad.append(f"{nm} still outdated")
+        elif not np.allclose(np.asarray(nd.value), w, atol=1e-5):
+            bad.append(f"{nm} reports up to date but holds {np.asarray(nd.value).tolist()}, from scratch {np.asarray(w).tolist()}")
+    col.add(None if not bad else {"sig": "native::coherence::foreign_caching_node", "what": f"mu = -1 assigned, then {how} update: " + "; ".join(bad), "input": {"update": how}})
+
+
 def core_native(col, seed, n_graphs=4, n_hist=3, length=6):
     """the part of this stand-in that other properties re-run (their statements rest on the caching protocol): all scripted histories, the
     special scenarios, and a few seeded random graphs x histories; every violation found is reported under the calling property"""
     rng = random.Random(seed)
     for fn, args in ((set_seed_case, (True,)), (set_seed_case, (False,)), (failed_assignment_case, ()), (inplace_case, (True,)), (inplace_case, (False,)), (none_value_case, (True,)), (none_value_case, (False,)),
-                     (transformed_state_case, ("tree_map_asarray",))):
+                     (transformed_state_case, ("tree_map_asarray",)), (foreign_caching_node_case, ("auto",)), (foreign_caching_node_case, ("full",)), (foreign_caching_node_case, ("targeted",))):
         try:
             fn(col, *args)
         except Exception as e:
@@ -351,7 +388,7 @@ def core_native(col, seed, n_graphs=4, n_hist=3, length=6):
 
 
 CORE_RULE = ("BOUNDED (shared with C01): the caching protocol: scripted histories on a join-shaped and a two-path graph, failed / in-place / None assignments, set_seed, a restored state with "
-             "array-valued flags, and 4 seeded random graphs x 3 histories of 6 operations, each compared with a from-scratch rebuild")
+             "array-valued flags, caching nodes that are neither Calc nor Dist (legacy PIT node, a user-defined Node subclass), and 4 seeded random graphs x 3 histories of 6 operations, each compared with a from-scratch rebuild")
 
 
 def bounded(tier, seed):
@@ -373,6 +410,11 @@ def bounded(tier, seed):
             transformed_state_case(col, how)
         except Exception as e:
             col.add({"sig": f"native::coherence::exception::{type(e).__name__}", "what": f"{type(e).__name__}: {str(e)[:200]}", "input": {"scenario": "restored state with array flags", "how": how}})
+    for how in ("auto", "full", "targeted"):
+        try:
+            foreign_caching_node_case(col, how)
+        except Exception as e:
+            col.add({"sig": f"native::coherence::exception::{type(e).__name__}", "what": f"{type(e).__name__}: {str(e)[:200]}", "input": {"scenario": "caching node that is neither Calc nor Dist", "update": how}})
     try:
         failed_assignment_case(col)
     except Exception as e:
@@ -396,7 +438,7 @@ def bounded(tier, seed):
             except Exception as e:
                 col.add({"sig": f"native::coherence::exception::{type(e).__name__}", "what": f"{type(e).__name__}: {str(e)[:200]}", "input": {"graph": spec.nodes}})
     return {"evaluations": col.evals, "distinct_nontrivial": col.evals,
-            "rule": (f"BOUNDED: {len(SCRIPTS) + len(ORDER_SCRIPTS)} scripted histories on a join-shaped graph and on a graph where a node is reachable by two paths of different length (targeted update order) (outdated nodes left behind while auto-update is on again, then an assignment to a non-ancestor); a state with pending nodes restored after a JAX / numpy transformation (array-valued flags); None assigned to an optional input of a cached calculation; set_seed with auto-update on and off; {n_graphs} seeded random DAGs (1-3 strong variables with or without a distribution, 1-4 further nodes out of cached Calc, transient Calc, weak variable, weak "
+            "rule": (f"BOUNDED: {len(SCRIPTS) + len(ORDER_SCRIPTS)} scripted histories on a join-shaped graph and on a graph where a node is reachable by two paths of different length (targeted update order) (outdated nodes left behind while auto-update is on again, then an assignment to a non-ancestor); a state with pending nodes restored after a JAX / numpy transformation (array-valued flags); None assigned to an optional input of a cached calculation; set_seed with auto-update on and off; caching nodes that are neither Calc nor Dist (legacy PIT node, user-defined Node subclass) under automatic / full / targeted update; {n_graphs} seeded random DAGs (1-3 strong variables with or without a distribution, 1-4 further nodes out of cached Calc, transient Calc, weak variable, weak "
                      f"variable with distribution, bare Value node; 1-2 parents each) x {n_hist} random histories of {length} operations (assign, toggle auto-update, full update, targeted "
                      "update of a random node, Node.clear_state() of a random caching node, save, restore) on the real model; call counters in every node function; after every operation every up-to-date node is compared with a "
                      f"from-scratch rebuild at the current input values. seed={seed}"),
